@@ -191,7 +191,68 @@ def _alarm(_sig, _frm):
 
 
 def run_one(mod, plan: dict) -> dict:
-    """Execute one plan with a watchdog; classify harness errors apart from violations."""
+    """Execute one plan with a watchdog; classify harness errors apart from violations.
+
+    A module with ISOLATE_RUNS = True gets every run in a forked copy of the (initialised) worker: whatever the code
+    under test keeps in process-level state (class attributes, caches, module globals) then cannot travel from one
+    run to the next, so a run is a function of its plan alone and replays in a fresh interpreter. Histories in which
+    such state matters are written into the plans themselves (a container, session or object used *before*)."""
+    if getattr(mod, "ISOLATE_RUNS", False) and not os.environ.get("VERIF_NO_ISOLATE"):
+        return _run_one_forked(mod, plan)
+    return _run_one_here(mod, plan)
+
+
+def _run_one_forked(mod, plan: dict) -> dict:
+    import pickle
+    import select
+
+    t0 = _real_perf()
+    r, w = os.pipe()
+    pid = os.fork()
+    if pid == 0:
+        code = 0
+        try:
+            os.close(r)
+            res = _run_one_here(mod, plan)
+            data = pickle.dumps(res, protocol=pickle.HIGHEST_PROTOCOL)
+            with os.fdopen(w, "wb") as f:
+                f.write(data)
+        except BaseException:  # pylint: disable=broad-except
+            traceback.print_exc()
+            code = 3
+        finally:
+            os._exit(code)
+    os.close(w)
+    chunks = []
+    deadline = _real_perf() + _RUN_WALL_CAP + 60
+    timed_out = False
+    while True:
+        left = deadline - _real_perf()
+        if left <= 0:
+            timed_out = True
+            break
+        ready, _, _ = select.select([r], [], [], min(left, 5.0))
+        if not ready:
+            continue
+        b = os.read(r, 1 << 20)
+        if not b:
+            break
+        chunks.append(b)
+    os.close(r)
+    if timed_out:
+        try:
+            os.kill(pid, signal.SIGKILL)
+        except OSError:
+            pass
+    _, status = os.waitpid(pid, 0)
+    if timed_out or status != 0 or not chunks:
+        return {"records": [], "harness_error": f"isolated run failed: status={status} timed_out={timed_out}", "wall": _real_perf() - t0}
+    res = pickle.loads(b"".join(chunks))
+    res["wall"] = _real_perf() - t0
+    return res
+
+
+def _run_one_here(mod, plan: dict) -> dict:
     faulthandler.dump_traceback_later(_RUN_WALL_CAP + 30, exit=True)
     old = signal.signal(signal.SIGALRM, _alarm)
     signal.alarm(_RUN_WALL_CAP)
@@ -503,8 +564,12 @@ def main(modname: str, argv: list[str]) -> int:
     if unmatched:
         # group by class; report the first run of each class (at most 3 classes shrunk)
         classes: dict = {}
+        candidates: dict = {}
         for k, rec in unmatched:
             classes.setdefault(vclass(rec), (k, rec))
+            lst = candidates.setdefault(vclass(rec), [])
+            if len(lst) < 6 and k not in [c[0] for c in lst] and sum(1 for c in lst if c[0][0] == k[0]) < 2:
+                lst.append((k, rec))  # at most two runs per plan family: families differ in what a run contains
         shrink_budget = {"quick": 60, "thorough": 300}[args.tier]
         if hasattr(mod, "worker_init"):
             mod.worker_init()
@@ -512,17 +577,27 @@ def main(modname: str, argv: list[str]) -> int:
             ordered = sorted(classes.items(), key=lambda kv: (kv[1][0][0], kv[1][0][1]))
             if len(ordered) > 6:
                 print(f"  {len(ordered)} distinct violation classes; replay files are written for the first 6", flush=True)
-            for ci, (cls, (k, rec)) in enumerate(ordered[:6]):
-                fam, i = k
-                rng = random.Random(sub_seed(seed, prop, fam, i))
-                plan = mod.gen_plan(fam, i, rng, args.tier)
-                if ci < 3:
-                    small, execs = shrink(mod, plan, cls, shrink_budget)
-                else:
-                    small, execs = plan, 0
-                path = write_replay(mod, modname, prop, seed, fam, i, small, cls, rec, execs)
+            for ci, (cls, _first) in enumerate(ordered[:6]):
+                # a violation that depends on what the worker process did before (state kept in the code under test
+                # between runs) does not reproduce from its own plan alone: try the next runs of the same class
+                path = None
+                for k, rec in candidates[cls]:
+                    fam, i = k
+                    rng = random.Random(sub_seed(seed, prop, fam, i))
+                    plan = mod.gen_plan(fam, i, rng, args.tier)
+                    if ci < 3:
+                        small, execs = shrink(mod, plan, cls, shrink_budget)
+                    else:
+                        small, execs = plan, 0
+                    path = write_replay(mod, modname, prop, seed, fam, i, small, cls, rec, execs)
+                    if path is None and small is not plan:
+                        # shrinking ran in this process: if it relied on left-over state, fall back to the plan as generated
+                        path = write_replay(mod, modname, prop, seed, fam, i, plan, cls, rec, 0)
+                    if path is not None:
+                        break
                 if path is None:
-                    harness_errors.append((fam, i, f"violation {cls} did not reproduce in a fresh interpreter"))
+                    fam, i = candidates[cls][0][0]
+                    harness_errors.append((fam, i, f"violation {cls} did not reproduce in a fresh interpreter ({len(candidates[cls])} runs tried)"))
                     continue
                 print(f"VIOLATION property={prop} replay={path}", flush=True)
                 print(f"  oracle={cls[0]} site={cls[1]} msg={rec.get('msg')}", flush=True)
